@@ -91,6 +91,24 @@ TetrahedralMeshTopologyKernel::add_cell(std::vector<HalfFaceHandle> _halffaces, 
         }
     }
 
+    if(_topologyCheck) {
+        // A tetrahedron has exactly four distinct vertices. The closedness test of
+        // TopologyKernel::add_cell() alone also accepts, e.g., both halffaces of
+        // two vertex-disjoint triangles.
+        std::set<VertexHandle> vhs;
+        for(const auto &hfh: _halffaces) {
+            for(const auto &heh: TopologyKernel::face(TopologyKernel::face_handle(hfh)).halfedges()) {
+                vhs.insert(TopologyKernel::from_vertex_handle(heh));
+            }
+        }
+        if(vhs.size() != 4) {
+#ifndef NDEBUG
+            std::cerr << "TetrahedralMeshTopologyKernel::add_cell(): The halffaces do not span four distinct vertices; not adding cell." << std::endl;
+#endif
+            return TopologyKernel::InvalidCellHandle;
+        }
+    }
+
     return TopologyKernel::add_cell(std::move(_halffaces), _topologyCheck);
 }
 
